@@ -256,11 +256,15 @@ static std::string c09_tables(const Case &) {
   for (int i = 1; i <= 10; i++) { evals++; if (RC[i] != rc) return "#1#rcon|RC[" + std::to_string(i) + "] wrong"; rc = xt(rc); }
   return "#" + std::to_string(evals) + "#";
 }
-static const char *C09_BASES[4][2] = {
+static const char *C09_BASES[8][2] = {
     {"000102030405060708090a0b0c0d0e0f", "00112233445566778899aabbccddeeff"},
     {"00000000000000000000000000000000", "00000000000000000000000000000000"},
     {"ffffffffffffffffffffffffffffffff", "ffffffffffffffffffffffffffffffff"},
-    {"61626364656667683031323334353637", "49276d20612074657374206d73672e00"}};
+    {"61626364656667683031323334353637", "49276d20612074657374206d73672e00"},
+    {"2b7e151628aed2a6abf7158809cf4f3c", "6bc1bee22e409f96e93d7e117393172a"},
+    {"0f1e2d3c4b5a69788796a5b4c3d2e1f0", "80000000000000000000000000000001"},
+    {"00000000000000000000000000000001", "ffffffffffffffffffffffffffffff7f"},
+    {"fedcba98765432100123456789abcdef", "00ff00ff00ff00ff00ff00ff00ff00ff"}};
 static std::string c09_dev(const Case &c) {
   int base = (int)c.num("base"), kp = (int)c.num("kp"), kv = (int)c.num("kv");
   Bytes key = unhex(C09_BASES[base][0]), blk0 = unhex(C09_BASES[base][1]);
@@ -328,7 +332,7 @@ static Bytes c10_iv(int kind) {
   if (kind == 18) return Bytes(16, 0);
   return unhex("f0f1f2f3f4f5f6f7f8f9fafbfcfdfeff");
 }
-static const char *C10_BLOCKS[3] = {"6bc1bee22e409f96e93d7e117393172a", "00000000000000000000000000000000", "ffffffffffffffffffffffffffffffff"};
+static const char *C10_BLOCKS[4] = {"6bc1bee22e409f96e93d7e117393172a", "00000000000000000000000000000000", "ffffffffffffffffffffffffffffffff", "0123456789abcdeffedcba9876543210"};
 static std::string c10_check(int cm, const unsigned char *key, const Bytes &iv, const Bytes &in, const std::string &what) {
   AesFactory f((u8_t *)key, iv.data());
   // encryptor vs reference, block by block through the stream object
@@ -380,14 +384,15 @@ static std::string c10_seq(const Case &c) {
   int cm = (int)c.num("cm"), k = (int)c.num("k"), ivk = (int)c.num("iv");
   Bytes iv = c10_iv(ivk);
   long evals = 0;
-  // all sequences of length 0..4 over the 3-block alphabet: 1+3+9+27+81 = 121
-  for (int len = 0; len <= 4; len++) {
+  // quick: all sequences of length 0..4 over a 3-block alphabet (121); thorough: length 0..5 over a 4-block alphabet (1,365)
+  const int A = THOROUGH ? 4 : 3, maxlen = THOROUGH ? 5 : 4;
+  for (int len = 0; len <= maxlen; len++) {
     int cnt = 1;
-    for (int i = 0; i < len; i++) cnt *= 3;
+    for (int i = 0; i < len; i++) cnt *= A;
     for (int s = 0; s < cnt; s++) {
       Bytes in;
       int t = s;
-      for (int i = 0; i < len; i++) { Bytes b = unhex(C10_BLOCKS[t % 3]); in.insert(in.end(), b.begin(), b.end()); t /= 3; }
+      for (int i = 0; i < len; i++) { Bytes b = unhex(C10_BLOCKS[t % A]); in.insert(in.end(), b.begin(), b.end()); t /= A; }
       evals++;
       std::string r = c10_check(cm, fo::KEYS[k == 0 ? 3 : k], iv, in, "iv kind " + std::to_string(ivk) + ", sequence " + std::to_string(s) + " of length " + std::to_string(len));
       if (!r.empty()) return "#" + std::to_string(evals) + "#" + r;
@@ -632,7 +637,7 @@ static void build(const Args &a, std::vector<Case> &out) {
             add(Case().set("g", "filetag").set("T", T).set("cm", cm).set("hm", hm).set("k", (long)(n % 5)).set("n", (long)n), "filetag:T=" + std::to_string(T) + ":hm=" + std::to_string(hm) + ":innerlen%64=" + std::to_string((64 + 20 * T + 16 * (n / 16 + 1)) % 64));
   } else if (MODE == "c09") {
     add(Case().set("g", "tables"), "tables");
-    int nb = THOROUGH ? 4 : 1;
+    int nb = THOROUGH ? 8 : 1;
     for (int b = 0; b < nb; b++)
       for (int kp = 0; kp < 16; kp++)
         for (int kv = 0; kv < 256; kv++) add(Case().set("g", "dev").set("base", b).set("kp", kp).set("kv", kv), "dev:base=" + std::to_string(b) + ":keybyte=" + std::to_string(kp));
@@ -640,7 +645,7 @@ static void build(const Args &a, std::vector<Case> &out) {
       for (int b = 1; b < 4; b++)
         for (int kp = 0; kp < 16; kp++)
           for (int kv = 0; kv < 256; kv += 5) add(Case().set("g", "dev").set("base", b).set("kp", kp).set("kv", kv).set("bstep", 5), "dev:base=" + std::to_string(b) + ":keybyte=" + std::to_string(kp));
-    for (int b = 0; b < 4; b++)
+    for (int b = 0; b < (THOROUGH ? 8 : 4); b++)
       for (int kb = 0; kb < 128; kb++) add(Case().set("g", "bits").set("base", b).set("kb", kb), "bits:base=" + std::to_string(b));
   } else if (MODE == "c10") {
     for (int cm = 0; cm < 5; cm++)
@@ -649,6 +654,9 @@ static void build(const Args &a, std::vector<Case> &out) {
     for (int cm = 0; cm < 5; cm++)
       for (int iv : {1, 2, 3, 16, 17})
         for (long nb : {300L, 65539L}) { if (!THOROUGH && nb > 300 && iv != 2 && iv != 17) continue; add(Case().set("g", "long").set("cm", cm).set("iv", iv).set("blocks", nb), std::string("long:") + MN[cm] + ":blocks=" + std::to_string(nb)); }
+    if (THOROUGH) // 2^20+3 blocks: the counter / the feedback register after more than a million steps (carry through three bytes for IV kinds 0..2)
+      for (int cm = 1; cm < 5; cm++)
+        for (int iv : {0, 2, 17}) add(Case().set("g", "long").set("cm", cm).set("iv", iv).set("blocks", 1048579L), std::string("long:") + MN[cm] + ":blocks=2^20+3");
   } else if (MODE == "c16") {
     for (int b0 = 0; b0 < 256; b0++) add(Case().set("g", "enc3").set("b0", b0), "enc3");
     add(Case().set("g", "tails"), "tails");
